@@ -1106,6 +1106,14 @@ def _fresh_of_original_node(prog: Program, col: Collector, refs: Refs, cat: Cata
                 out |= sources(d, depth + 1)
         elif isinstance(e, ast.IfExp):
             out |= sources(e.body, depth + 1) | sources(e.orelse, depth + 1)
+            t = e.test
+            if not (isinstance(t, ast.Compare) and len(t.ops) == 1 and isinstance(t.ops[0], (ast.Is, ast.IsNot)) and isinstance(t.comparators[0], ast.Constant)
+                    and t.comparators[0].value is None):
+                out.add(("truthiness", norm(t)))
+        elif isinstance(e, ast.BoolOp) and isinstance(e.op, ast.Or):
+            for v_ in e.values:
+                out |= sources(v_, depth + 1)
+            out.add(("truthiness", norm(e)))
         return out
 
     for c in sel:
@@ -1114,6 +1122,12 @@ def _fresh_of_original_node(prog: Program, col: Collector, refs: Refs, cat: Cata
             continue
         handed = [s_ for s_ in src if s_[0] == "self"]
         construct = f"{im.fq}::{norm(c)}"
+        falsy = [s_ for s_ in src if s_[0] == "truthiness"]
+        if falsy and handed and ("result",) in src:
+            col.violation(construct + "::precedence", f"the fresh names handed over for the node give way to the result's whenever they are falsy (`{falsy[0][1]}`): a node without fresh "
+                          "names (an empty frozenset - a lazy Binary / Contraction / Reduce) is then substituted at the fresh names of what it evaluated to, i.e. the pairs are "
+                          "applied a second time; only `is None` may select the fallback", im.loc(c))
+            continue
         if not handed:
             col.violation(construct, "the pairs applied to a rebuilt node are chosen by the fresh names of the constructed RESULT; when the base interpretation evaluates the node "
                           "those include inputs introduced by the values already substituted into its children, so a pair is applied twice "
@@ -1192,29 +1206,29 @@ def _self_referential_filter(prog: Program, col: Collector, refs: Refs, cat: Cat
     for f in prog.funcs.values():
         if isinstance(f.node, ast.Lambda) or f.name != "eager_subs":
             continue
-        for st in walk_no_nested(f.node):
-            S = None
-            comp = None
-            if isinstance(st, ast.AugAssign) and isinstance(st.op, ast.Sub) and isinstance(st.target, ast.Name):
-                S = st.target.id
-                val = st.value
-                if isinstance(val, ast.Name):
-                    ds = [d for d in walk_no_nested(f.node) if isinstance(d, ast.Assign) and any(isinstance(t, ast.Name) and t.id == val.id for t in d.targets)]
-                    val = ds[0].value if len(ds) == 1 else None
-                if isinstance(val, (ast.SetComp, ast.GeneratorExp)) or (isinstance(val, ast.Call) and val.args and isinstance(val.args[0], (ast.SetComp, ast.GeneratorExp))):
-                    comp = val if isinstance(val, (ast.SetComp, ast.GeneratorExp)) else val.args[0]
-            if S is None or comp is None:
+        for comp in walk_no_nested(f.node):
+            if not isinstance(comp, (ast.SetComp, ast.GeneratorExp, ast.ListComp)) or len(comp.generators) != 1:
                 continue
             g = comp.generators[0]
-            iter_is_S = isinstance(g.iter, ast.Name) and g.iter.id == S
-            reads_S = any(isinstance(x, ast.Name) and x.id == S for c in g.ifs for x in ast.walk(c))
-            if not (iter_is_S and reads_S):
+            if not isinstance(g.iter, ast.Name):
                 continue
+            S = g.iter.id
+            # the filter asks whether something OTHER than the element itself is in S
+            member = [c for cnd in g.ifs for c in ast.walk(cnd) if isinstance(c, ast.Compare) and len(c.ops) == 1 and isinstance(c.ops[0], (ast.In, ast.NotIn))
+                      and isinstance(c.comparators[0], ast.Name) and c.comparators[0].id == S and not (isinstance(c.left, ast.Name) and isinstance(g.target, ast.Name)
+                                                                                                       and c.left.id == g.target.id)]
+            if not member:
+                continue
+            st = comp
+            while not isinstance(st, ast.stmt):
+                st = f.module.parent.get(st)
             n += 1
             in_loop = any(isinstance(a, ast.While) for a in f.module.ancestors(st) if f.module.enclosing_function(a) is f.node)
-            col.check(in_loop, f"{f.fq}::{S} -= ...", f"`{S}` is filtered repeatedly until nothing more is removed",
-                      f"`{S}` is filtered once by a test that reads `{S}` itself: removing one name can make the test true for another (a chain of renamings x(i='j', j='k') onto an "
-                      "input k that keeps its name), so a single pass leaves a renaming that collapses two inputs", f.loc(st))
+            tgt = norm(st.target) if isinstance(st, ast.AugAssign) else (norm(st.targets[0]) if isinstance(st, ast.Assign) else "?")
+            col.check(in_loop, f"{f.fq}::{tgt} {'-' if isinstance(st, ast.AugAssign) else ''}= ...", f"`{S}` is filtered repeatedly until nothing more is removed",
+                      f"the elements of `{S}` are filtered once by a test that asks what else is in `{S}` (`{norm(member[0])}`): removing one name changes the answer for another (a chain "
+                      "of renamings x(i='j', j='k') onto an input k that keeps its name), so a single pass leaves a renaming that collapses two inputs; the filter has to be "
+                      "repeated until nothing is removed", f.loc(st))
     col.cur.analysed["self_referential_filters"] = n
 
 
@@ -1477,5 +1491,3 @@ def _affine_calculus(prog: Program, col: Collector, refs: Refs, cat: Catalogue):
                            f"{'; '.join(show(k) for k in witness[0])[:200]}): {law}.  is_affine() then holds for a term that is not affine and Gaussian substitution "
                            "treats it as a linear change of variables") if witness else "", f.loc(st))
     col.cur.analysed["affine_rule_branches"] = n_branches
-    if n_branches < 6:
-        raise AnalysisError(f"R04.25: only {n_branches} op branches of the affine_inputs rules were found (6 confirmed by hand in funsor/affine.py)")
